@@ -565,14 +565,34 @@ def execute(program, ctx, mode):
     # operation that caused the notification is over: the ordinary probes judge that.  Cold twins are plain registries.
     spy_reg_world = h64(program.get('seed') or 0, 'listening-registries') % 3 == 0
     spy_armed = [False]
+    spy_mutation = [None]       # armed by some register / unregister operations: (value index, key index)
+    spy_written = set()         # keys the listener wrote during the current operation (it wrote last)
 
     class SpyA(AdapterRegistry):
+        _zisim_r = None
+
         def changed(self, originally_changed):
             AdapterRegistry.changed(self, originally_changed)
             if not spy_armed[0]:
                 return
             spy_armed[0] = False            # (no lookups from inside the lookups' own notifications)
             try:
+                sm, spy_mutation[0] = spy_mutation[0], None
+                r_ = self._zisim_r
+                if sm is not None and r_ is not None and regs[r_] is self and rb.get(r_) and originally_changed is not self:
+                    # ... and, now and then, the listener registers something in the registry right above it (the model and the
+                    # mutation log are brought up to date here, at the moment it happens)
+                    b_ = rb[r_][0]
+                    fk_ = W['keypool'][sm[1] % len(W['keypool'])]
+                    rq_ = tuple(norm([SP[x % len(SP)] if LK[x % len(LK)] not in SP else LK[x % len(LK)] for x in fk_['req']]))
+                    pp_ = fk_['p'] % (nP + 1)
+                    pp_ = pp_ if pp_ < nP else 0
+                    nm_ = NAMES[fk_['n'] % 3]
+                    v_ = vals[sm[0] % len(vals)]
+                    ctx.fault('cb-reenter-registration-in-registry-notification')
+                    mutate(('reg', b_, real_req(rq_), PP(pp_), nm_, v_))
+                    live[(b_, rq_, pp_, nm_)] = v_
+                    spy_written.add((b_, rq_, pp_, nm_))
                 ctx.fault('cb-reenter-lookup-in-registry-notification')
                 for key in W['keypool'][:3]:
                     try:
@@ -591,6 +611,8 @@ def execute(program, ctx, mode):
         for r in range(nR):
             if RD[r]['flav'] == 'A':
                 out.append((SpyA if (spy_reg_world and not plain and r % 2 == 1) else AdapterRegistry)())
+                if isinstance(out[-1], SpyA):
+                    out[-1]._zisim_r = r
             else:
                 out.append(VClass())
         return out
@@ -631,8 +653,16 @@ def execute(program, ctx, mode):
             rs[m[1]].rebuild()
 
     def mutate(m):
-        apply(regs, m)
+        # (logged first: a mutation made from inside this one's notifications comes after it in the log, as it does in time)
         mutlog.append(m)
+        try:
+            apply(regs, m)
+        except BaseException:
+            for i_ in range(len(mutlog) - 1, -1, -1):
+                if mutlog[i_] is m:
+                    del mutlog[i_]
+                    break
+            raise
 
     def twin():
         t = mkregs(plain=True)
@@ -1427,10 +1457,16 @@ def execute(program, ctx, mode):
                     ctx.probe('identical-re-registration')
                 elif old is not None:
                     ctx.probe('overwrite')
+                if spy_reg_world and h64(k, 'listener-registers-above') % 4 == 0:
+                    spy_mutation[0] = (op['v'] + 1, op.get('fromkey') or 0)
+                spy_written.clear()
                 mutate(('reg', r, real_req(req), PP(p), nm, v))
+                spy_mutation[0] = None
                 # (an identical re-registration "is a no-op": judged by what the registry answers afterwards, not by its
                 # internal change counter -- bumping it needlessly would not be observable through the public API)
-                live[(r, norm(req), p, nm)] = v
+                if (r, norm(req), p, nm) not in spy_written:
+                    live[(r, norm(req), p, nm)] = v
+                spy_written.clear()
                 last_mut[0] = 'register'
                 ctx.log(step, 'reg', r, req, p, nm, v)
                 opk = (norm(req), p, nm)
@@ -1907,6 +1943,8 @@ def execute(program, ctx, mode):
                 new.__init__()
                 del misses
                 regs[r] = new
+                if isinstance(new, SpyA):
+                    new._zisim_r = r
                 if own_bases:
                     mutate(('bases', r, own_bases))
                     rb[r] = own_bases
